@@ -6,6 +6,7 @@ CONSTANTS
   DurModes = {"mixA", "mixB", "mixC"}
   CtsModes = {"none"}
   TfdtVs = {0}
+  Orders = {"asc", "desc"}
   TrexPerTrack = FALSE
   MdatFirsts = {FALSE, TRUE}
   Deliveries = {"one", "split"}
